@@ -19,7 +19,7 @@ RULE = ("(a) cell sweep: every operation/assertion x operand-type combination x 
         "operand value is satisfiable; and when the same assertion is repeated at top level on the same operand objects "
         "after having been made under a guard (either value) the satisfiable set is again exactly the unguarded one. (d) generated multi-statement bodies under nested guards. Non-trivial = the body "
         "raises when unguarded on these operand values (a, b, d) / every instance (c); distinct by case digest.")
-RULE += " Extensions (seeded rounds 10-15): regions whose conditions are derived from the conditions around them (c & e inside the region of c, ...), unpacking of raw wires."
+RULE += " Extensions (seeded rounds 10-15): regions whose conditions are derived from the conditions around them (c & e inside the region of c, ...), unpacking of raw wires; live values used inside a dead region and again after it (the live program behaves as with the region deleted), dead chains that combine garbage with live values."
 
 
 HUGE = ["pow", 3, 16384]       # 7817 decimal digits, decoded by ir.Machine._make_input
@@ -426,6 +426,11 @@ def body_shard(seed, n_examples):
         # prelude: a false guard variable, then a guarded region with a generated body
         out = m.exec_stmt(["in", "priv", "B", 0])
         gref = out[1][0]
+        # live values of the surrounding program (small and negative ones among them), used by the region and again after it
+        live = []
+        for _ in range(draw(st.integers(0, 2))):
+            live += m.exec_stmt(["in", "priv", "I", draw(st.one_of(st.integers(-9, 9), ir.int_values(st, cfg["b"])))])[1]
+        g.recent = list(live)
         n = draw(st.integers(1, 5))
         raised_inside = []
 
@@ -437,10 +442,17 @@ def body_shard(seed, n_examples):
                     raise ir._Abort()
         m.exec_stmt(["guard", "lc", gref, []], body_fn=body)
         prog = m.program()
+        npre = 1 + len(live)
         labels = set(g.labels)
         msg = consistent(m) if m.raised is None else None
+        if m.raised is None and msg is None and live:
+            # the live program goes on with its values: what it computes from them (and whether it is refused) is what it
+            # computes with the dead region deleted
+            msg = live_tail(prog, npre, live)
+            prog = dict(prog, tail=True)
+            labels.add("live-tail")
         # the same body unguarded: does it raise because of values?
-        flat = {"cfg": prog["cfg"], "stmts": [prog["stmts"][0]] + prog["stmts"][1][3]}
+        flat = {"cfg": prog["cfg"], "stmts": prog["stmts"][:npre] + prog["stmts"][npre][3]}
         m2 = ir.run_program(flat)
         nt = m2.raised is not None and m.raised is None
         stats.case(prog if nt else None, nt, labels | {"unguarded:" + ("raises" if m2.raised else "ok")})
@@ -480,6 +492,67 @@ def body_shard(seed, n_examples):
 
     v = core.drive(test, seed, n_examples)
     return core.finish_shard(stats, v, None)
+
+
+def live_tail(prog, npre, live):
+    """prog = prelude (npre statements; `live` are the indices of its integer inputs), a false-guarded region, nothing else.
+    Appends sign test, halving, square and bit decomposition of every live value and runs that once with the region and once
+    with the region deleted: outcomes (values or exception type per statement) must agree."""
+    outs = []
+    for with_region in (True, False):
+        stmts = list(prog["stmts"][:npre + (1 if with_region else 0)])
+        m = ir.Machine(prog["cfg"])
+        for s_ in stmts:
+            m.exec_stmt(s_)
+        if m.raised is not None:
+            return None
+        c0 = m.exec_stmt(["const", 0])[1][0]
+        c2 = m.exec_stmt(["const", 2])[1][0]
+        seq = []
+        for y in live:
+            for st_ in (["op", "lt", [y, c0]], ["op", "floordiv", [y, c2]], ["op", "mul", [y, y]], ["op", "abs", [y]], ["op", "val", [y]]):
+                r = m.exec_stmt(st_)
+                if r[0] == "ok":
+                    seq.append((st_[1], y, "ok", [ir.pyval(m.vals[i], m.types[i]) if m.types[i] in "IBF" else m.vals[i] for i in r[1]], m.refval(y)))
+                else:
+                    seq.append((st_[1], y, "raise", type(r[1]).__name__, None))
+                    m.raised = None
+        bad = consistent(m)
+        if bad:
+            return ("after the dead region: " if with_region else "harness: ") + bad
+        outs.append(seq)
+    for a, c in zip(*outs):
+        if a != c:
+            return ("live code after a false-guarded region: %s on v%d gives %s %r (operand value %r) but %s %r (operand value %r) with the region deleted"
+                    % (a[0], a[1], a[2], a[3], a[4], c[2], c[3], c[4]))
+    return None
+
+
+def dead_chain_shard(b, p):
+    """dead regions that compute garbage from invalid operands (inexact division, division by zero, shift of a negative value,
+    product of field-sized values) and combine it with a live value of the surrounding program in a second operation; the
+    live program then goes on using that value (live_tail)."""
+    stats = core.Stats()
+    found = {}
+    lim = 1 << b
+    sources = [("truediv", 7, 3), ("truediv", 5, 0), ("floordiv", 5, 0), ("mod", -5, 0), ("rshift", -5, 1), ("mul", lim + 1, lim + 1),
+               ("floordiv", lim + 3, 2), ("pow", 3, 5), ("truediv", -7, 2)]
+    users = ["mul", "add", "sub", "truediv", "floordiv", "mod", "lt", "ge", "eq", "and", "or", "xor", "lshift", "rshift", "assert_eq", "assert_lt"]
+    for (op1, x, c), op2, order, y, again in itertools.product(sources, users, (0, 1), (-4, 5, 0, -1, lim - 1), (False, True)):
+        # (a zero divisor is a secret input: dividing by the plain constant 0 is refused whatever the guard, being the program's fault)
+        body = [["in", "priv", "I", c] if c == 0 else ["const", c], ["op", op1, [2, 3]], ["op", op2, [4, 1] if order == 0 else [1, 4]]]
+        if again:
+            body.append(["op", "mul", [4, 4]])      # the garbage squared (field-sized times field-sized), then the same use again
+            body.append(["op", op2, [5, 1] if order == 0 else [1, 5]])
+        prog = {"cfg": {"p": p, "b": b, "r": 0, "ignore": False},
+                "stmts": [["in", "priv", "B", 0], ["in", "priv", "I", y], ["in", "priv", "I", x], ["guard", "lc", 0, body]], "tail": True}
+        msg = replay(prog)
+        stats.case(prog, True, ("dead-chain", "source:" + op1, "user:" + op2), sample_cap=2)
+        if msg:
+            key = "deadchain.%s.%s" % (op1, op2)
+            found.setdefault(key, {"case": prog, "msg": msg, "key": key})
+    stats.violations = list(found.values())
+    return stats
 
 
 def derived_case(case):
@@ -542,7 +615,11 @@ def replay(case):
     m = ir.run_program(case)
     if m.raised is not None:
         return "raised %s: %s at %r" % (type(m.raised[1]).__name__, m.raised[1], m.raised[0])
-    return consistent(m)
+    msg = consistent(m)
+    if msg is None and case.get("tail"):
+        npre = [i for i, s_ in enumerate(case["stmts"]) if s_[0] == "guard"][0]
+        msg = live_tail(case, npre, list(range(1, npre)))
+    return msg
 
 
 def cells(maxlen=3):
@@ -588,6 +665,7 @@ def run(ctx):
         items = [(k.name, prm) for k in c03.kinds(b) for prm in k.params if k.optype == "I"]
         total.merge_json(core.run_shards("harness.checks.c07", "enforce_shard", [dict(items=items[i::16], p=p, b=b) for i in range(16)]).to_json())
     total.merge_json(core.run_shards("harness.checks.c07", "derived_shard", [dict(p="bn128"), dict(p="bls12-381")]).to_json())
+    total.merge_json(core.run_shards("harness.checks.c07", "dead_chain_shard", [dict(b=b_, p=p_) for b_, p_ in ((4, "bn128"), (8, "bls12-381"), (16, "bn128"), (3, 257))]).to_json())
     total.merge_json(core.run_shards("harness.checks.c07", "body_shard", [dict(seed=ctx.seed * 1000 + i, n_examples=nbody) for i in range(16)]).to_json())
     ctx.stats = total
     replay_known(ctx, replay)
